@@ -141,7 +141,17 @@ def _a_head1(args, stdin=None, stdout=None, stderr=None):
     return 0
 
 
-ALIASES = {"ok": _a_ok, "raise": _a_raise, "exit": _a_exit, "rc1": _a_rc1, "early": _a_early, "big": _a_big, "slowbig": _a_slowbig, "sleep": _a_sleep, "head1": _a_head1}
+def _a_nest(args, stdin=None, stdout=None, stderr=None):
+    """A callable alias that itself runs a captured command (`$(ok)` inside the alias): when the alias
+    is threadable the inner pipeline is built and waited for OFF the main thread."""
+    from xonsh.procs.specs import run_subproc
+
+    out = run_subproc([["ok"]], captured="stdout")
+    stdout.write("nest:" + str(out))
+    return 0
+
+
+ALIASES = {"nest": _a_nest, "ok": _a_ok, "raise": _a_raise, "exit": _a_exit, "rc1": _a_rc1, "early": _a_early, "big": _a_big, "slowbig": _a_slowbig, "sleep": _a_sleep, "head1": _a_head1}
 
 # stage kind -> command word
 WORD = {
